@@ -91,6 +91,21 @@ def mask_family():
 
 
 def distribution_family():
+    # batch shapes of rank 0, 1 and 2: scores / weights are the TOTAL of the TFP log_prob array (a scalar)
+    from tensorflow_probability.substrates import jax as tfp
+    for shape in ((), (3,), (2, 3)):
+        mu = jnp.linspace(-1.0, 1.0, int(jnp.prod(jnp.array(shape or (1,))))).reshape(shape)
+        val = mu + 0.25
+        want = jnp.sum(tfp.distributions.Normal(mu, 2.0).log_prob(val))
+        s, _ = normal.assess(C.choice(val), (mu, 2.0))
+        g, w = normal.importance(KEY, C.choice(val), (mu, 2.0))
+        sim = normal.simulate(KEY, (mu, 2.0))
+        for nm, got in (("assess score", s), ("importance weight", w), ("importance score", g.get_score())):
+            if jnp.shape(got) != () or not close(got, want):
+                fail(f"Distribution {nm}: not the summed TFP log_prob", batch_shape=shape, got=got, want=want)
+        ssim = jnp.sum(tfp.distributions.Normal(mu, 2.0).log_prob(sim.get_retval()))
+        if jnp.shape(sim.get_score()) != () or not close(sim.get_score(), ssim):
+            fail("Distribution simulate score: not the summed TFP log_prob of the sample", batch_shape=shape, got=sim.get_score(), want=ssim)
     for v, flag in ((None, None), (1.2, None), (1.2, True), (1.2, False), (1.2, jnp.array(True)), (1.2, jnp.array(False))):
         c = C.empty() if v is None else (C.choice(v) if flag is None else C.choice(Mask(v, flag)))
         tr, w = normal.importance(KEY, c, (0.5, 2.0))
@@ -152,6 +167,12 @@ def dimap_family():
             fail("dimap.edit: retdiff NoChange but retval changed")
     # inner return value untouched (NoChange) while the arguments that `post` reads change
     kz = gen(lambda mu, sigma: normal(mu, sigma) @ "z")
+    d3 = gen(lambda x: normal(x, 1.0) @ "z").dimap(pre=lambda x, scale: (x,), post=lambda a, _, r: r * a[1])
+    t3 = d3.simulate(KEY, (0.5, 2.0))
+    new, w, rd, bwd = d3.edit(KEY, t3, Update(C.empty()), (Diff(0.5, NoChange), Diff(7.0, UnknownChange)))
+    wf(new, "dimap.edit[pre drops the changed argument, post reads it]")
+    if Diff.static_check_no_change(rd) and not close(new.get_retval(), t3.get_retval()):
+        fail("dimap.edit[pre drops the changed argument]: retdiff NoChange but retval changed", old=t3.get_retval(), new=new.get_retval())
     for nm, post in (("args", lambda args, xf, r: r - 2.0 * args[0]), ("xformed", lambda args, xf, r: r - xf[0])):
         d2 = kz.dimap(pre=lambda off, s: (off * 2.0, s), post=post)
         t0 = d2.simulate(KEY, (1.0, 1.0))
@@ -435,6 +456,68 @@ def closure_family():
         fail("closure with kwargs: score is not the density with the keyword merged")
 
 
+def smc_family():
+    """C26 on the real SMC algorithms: per-particle weight identities on an enumerable discrete target"""
+    from genjax import Target, categorical, flip, marginal
+    from genjax.inference.smc import ChangeTarget, Importance, ImportanceK
+    P1, P2 = jnp.array([0.0, 0.5, -0.5]), jnp.array([[0.0, 1.0], [0.7, -0.3], [-1.0, 0.2]])
+    PY = jnp.array([[0.2, 0.5], [0.9, 0.35], [0.6, 0.1]])
+    Q1, Q2 = jnp.array([0.3, -0.2, 0.1]), jnp.array([[0.5, 0.0], [0.0, 0.4], [0.3, 0.3]])
+
+    @gen
+    def model():
+        x1 = categorical(P1) @ "x1"
+        x2 = categorical(P2[x1]) @ "x2"
+        _ = flip(PY[x1, x2]) @ "y"
+        return x1, x2
+
+    @marginal()
+    @gen
+    def partial_proposal(target):
+        _ = categorical(Q1) @ "x1"
+
+    @marginal()
+    @gen
+    def full_proposal(target):
+        x1 = categorical(Q1) @ "x1"
+        _ = categorical(Q2[x1]) @ "x2"
+    lp1, lp2 = jax.nn.log_softmax(P1), jax.nn.log_softmax(P2, axis=-1)
+    lq1, lq2 = jax.nn.log_softmax(Q1), jax.nn.log_softmax(Q2, axis=-1)
+    lj = lambda y: lp1[:, None] + lp2 + jnp.log(PY if y else 1.0 - PY)
+    target = Target(model, (), C.kw(y=True))
+    cases = (("Importance (no proposal)", Importance(target), lambda a, b: lp1[a] + lp2[a, b]),
+             ("Importance (full proposal)", Importance(target, full_proposal), lambda a, b: lq1[a] + lq2[a, b]),
+             ("Importance (proposal for a subset of the latents)", Importance(target, partial_proposal), lambda a, b: lq1[a] + lp2[a, b]),
+             ("ImportanceK (full proposal)", ImportanceK(target, full_proposal, 6), lambda a, b: lq1[a] + lq2[a, b]))
+    for label, alg, logq in cases:
+        for k in range(4):
+            pc = alg.run_smc(jrand.key(k))
+            ch = pc.get_particles().get_choices()
+            x1, x2 = ch["x1"], ch["x2"]
+            if not bool(jnp.all(ch["y"] == 1)):
+                fail(f"{label}: a particle does not satisfy the target's constraint")
+            want = lj(True)[x1, x2] - logq(x1, x2)
+            if not close(pc.get_log_weights(), want):
+                fail(f"{label}: log-weight != log p(particle, observations) - log proposal density", got=pc.get_log_weights(), want=want)
+    # ChangeTarget: new target observes fewer / other values at the same addresses
+    t_old = Target(model, (), C.kw(y=True, x2=1))
+    for label, t_new, newlj in (("same addresses, other value", Target(model, (), C.kw(y=False, x2=1)), lambda a, b: lj(False)[a, b]),
+                                # x2 becomes latent again: it is re-drawn from the model, whose density cancels
+                                ("fewer constrained addresses", Target(model, (), C.kw(y=True)), lambda a, b: lp1[a] + jnp.log(PY[a, b]))):
+        for k in range(3):
+            prev = Importance(t_old)
+            pc0 = prev.run_smc(jrand.key(k))
+            pc = ChangeTarget(prev, t_new).run_smc(jrand.key(k))
+            ch0, ch = pc0.get_particles().get_choices(), pc.get_particles().get_choices()
+            x1, x2 = ch["x1"], ch["x2"]
+            inc = newlj(x1, x2) - lj(True)[ch0["x1"], ch0["x2"]]
+            if not close(pc.get_log_weights() - pc0.get_log_weights(), inc):
+                fail(f"ChangeTarget ({label}): weight increment != log new-target density - log old-target density of the particle",
+                     got=pc.get_log_weights() - pc0.get_log_weights(), want=inc)
+            if label.startswith("same") and not bool(jnp.all(ch["y"] == 0)):
+                fail("ChangeTarget: particle does not carry the new target's constraint")
+
+
 def choice_map_family():
     """C17 on the real classes: lookups against a reference finite map (value, present?)"""
     def look(m, *addr):
@@ -641,7 +724,7 @@ def selection_family():
 
 
 FAMILIES = [
-    (("C19.Mask.", "Mask._or_idx"), mask_algebra_family), (("C18.",), selection_family), ((".Diff.",), diff_family), (("C31.",), time_travel_family), (("C17.",), choice_map_family),
+    (("C19.Mask.", "Mask._or_idx"), mask_algebra_family), (("C18.",), selection_family), ((".Diff.",), diff_family), (("C31.",), time_travel_family), (("C17.",), choice_map_family), (("C26.",), smc_family),
     (("MaskCombinator", "MaskTrace"), mask_family), (("Distribution", "ExactDensity"), distribution_family),
     (("Dimap",), dimap_family), (("Switch",), switch_family), (("Vmap", "repeat"), vmap_family),
     (("Scan", "iterate", "accumulate", "reduce", "masked_iterate"), scan_family),
